@@ -1,566 +1,47 @@
-"""C16 -- CLA extrema, envelopes, uncertainty factors (partial claim)."""
+"""C16 -- CLA extrema, envelopes, uncertainty factors (partial claim).
+
+Every rule is decided on values and effects: the anchored functions are executed on symbols by verifier/c16_interp.py (all paths, same-module
+helpers followed, heap with aliasing: basic indexing is a view, advanced indexing / arithmetic / .copy() a new array), and the rules compare
+what is stored where, under which facts, with what the property requires.  No rule looks at the spelling of the source.
+
+  c16_ext.py   R1 role discipline + first-case freshness, R2 nan_arg* / maxmin / mirror, R3 SRS envelope
+  c16_uf.py    R4 effects of _pre_calcs / apply_uf / frf_apply_uf and cache discipline, R5 documented factors, R6 exits and index spaces
+"""
 from __future__ import annotations
 
-import ast
-
-from . import e2_formula as F
-from .core import AnchorError, Unsupported
-from .e1_srcmodel import dotted, walk_no_nested, parent, utext
-from .e2_eval import Evaluator, is_unknown, need
-from .e3_spaces import Arr, Idx, Typer
-
-UTIL = "pyyeti/cla/_utilities.py"
-RES = "pyyeti/cla/dr_results.py"
-EVT = "pyyeti/cla/dr_event.py"
-
-
-def _col_of(node, base):
-    """`base[:, C]` (possibly inside abs()) -> C ; `base` without a column -> 'all' ; else None"""
-    n = node
-    if isinstance(n, ast.Call) and dotted(n.func) in ("abs", "np.abs") and len(n.args) == 1:
-        n = n.args[0]
-    if ast.unparse(n) == base:
-        return "all"
-    if isinstance(n, ast.Subscript) and ast.unparse(n.value) == base and isinstance(n.slice, ast.Tuple) and len(n.slice.elts) == 2:
-        r, c = n.slice.elts
-        if isinstance(c, ast.Constant) and isinstance(c.value, int):
-            return c.value
-    return None
-
-
-def _is_abs(node):
-    return isinstance(node, ast.Call) and dotted(node.func) in ("abs", "np.abs")
-
-
-def r1_roles(ctx):
-    fn = ctx.src.func(UTIL, "extrema")
-    top = fn.body
-    # the one-column arm is the body of `if c == 1:`; the two-column arm is the rest of the function
-    one = [s for s in top if isinstance(s, ast.If) and ast.unparse(s.test).replace(" ", "") == "c==1"]
-    if len(one) != 1:
-        raise AnchorError("extrema: `if c == 1:` arm")
-    arms = {"one-column": one[0].body, "two-column": top[top.index(one[0]) + 1:]}
-    nstores = nsel = 0
-    for arm, body in arms.items():
-        # --- per-case records:  curext.mx/mn/mx_x/mn_x[:, casenum] = mm.ext/ext_x[:, C]
-        for st in [n for b in body for n in ast.walk(b)]:
-            if isinstance(st, ast.Assign) and isinstance(st.targets[0], ast.Subscript):
-                t = ast.unparse(st.targets[0].value)
-                if t in ("curext.mx", "curext.mn", "curext.mx_x", "curext.mn_x") and not isinstance(st.value, ast.Attribute) \
-                        and "nan" not in ast.unparse(st.value):
-                    src = "mm.ext_x" if t.endswith("_x") else "mm.ext"
-                    col = _col_of(st.value, src)
-                    want = 0 if (arm == "one-column" or ".mx" in t) else 1
-                    nstores += 1
-                    ctx.check(col == want, f"extrema [{arm}]: `{t}` records column {want} of {src}", st, {"column": col})
-        # --- running extrema: selector / label / value / abscissa all of one role
-        stmts = [s for s in body if isinstance(s, ast.Assign) and ast.unparse(s.targets[0]) == "j"]
-        for sel in stmts:
-            v = sel.value
-            # nan_argXXX(A, B).nonzero()[0]
-            call = None
-            for n in ast.walk(v):
-                if isinstance(n, ast.Call) and dotted(n.func) in ("nan_argmax", "nan_argmin"):
-                    call = n
-            if call is None:
-                ctx.error(f"extrema [{arm}]: selector shape", sel, ast.unparse(sel))
-                continue
-            kind = dotted(call.func)
-            role = 0 if kind == "nan_argmax" else 1
-            rname = "max" if role == 0 else "min"
-            idx = body.index(sel)
-            nxt = body[idx + 1] if idx + 1 < len(body) else None
-            if not (isinstance(nxt, ast.If) and "j.size" in ast.unparse(nxt.test)):
-                ctx.error(f"extrema [{arm}]: update block after the selector", sel)
-                continue
-            nsel += 1
-            a_col = _col_of(call.args[0], "curext.ext")
-            b_col = _col_of(call.args[1], "mm.ext")
-            # role information flow: the rows of the role-R column that get overwritten are chosen from role-R data only
-            ok = a_col == role
-            ctx.check(ok, f"extrema [{arm}]: the rows of the stored {rname} column that get replaced are selected by comparing "
-                          f"against that column only (`curext.ext[:, {role}]`)", sel,
-                      None if ok else f"selector compares against {'both stored columns (broadcast)' if a_col == 'all' else a_col}: a new value that beats only the "
-                                      f"stored {'min' if role == 0 else 'max'} also overwrites the stored {rname}; witness: one row, cases 5, 3, 4 -> stored extreme 4, true maximum 5 lost",
-                      key=f"C16-R1|extrema|{arm}|{rname} selector reads column {a_col}")
-            want_b = 0 if arm == "one-column" else role
-            okb = b_col == want_b or (arm == "one-column" and b_col == "all")   # the incoming table has a single column in this arm
-            ctx.check(okb, f"extrema [{arm}]: the {rname} selector reads column {want_b} of the incoming data", sel, {"column": b_col})
-            if arm == "one-column":
-                ok = _is_abs(call.args[0]) and _is_abs(call.args[1])
-                ctx.check(ok, f"extrema [one-column]: the {rname} comparison is on absolute values (sign kept on store)", sel)
-            else:
-                ok = not _is_abs(call.args[0]) and not _is_abs(call.args[1])
-                ctx.check(ok, f"extrema [two-column]: the {rname} comparison is on signed values", sel)
-            # inside the update block
-            for s2 in ast.walk(nxt):
-                if isinstance(s2, ast.Assign) and isinstance(s2.targets[0], ast.Subscript):
-                    t = ast.unparse(s2.targets[0].value)
-                    if t in ("curext.maxcase", "curext.mincase"):
-                        nstores += 1
-                        ok = t == ("curext.maxcase" if role == 0 else "curext.mincase")
-                        ctx.check(ok, f"extrema [{arm}]: the {rname} update relabels {'maxcase' if role == 0 else 'mincase'}", s2)
-                        src = ast.unparse(s2.value)
-                        want_src = "maxcase[i]" if (role == 0 or arm == "one-column") else "mincase[i]"
-                        ctx.check(src == want_src, f"extrema [{arm}]: label for the {rname} update comes from `{want_src}`", s2, src)
-                    if t == "curext.ext":
-                        nstores += 1
-                        c_t = s2.targets[0].slice.elts[1]
-                        ok = isinstance(c_t, ast.Constant) and c_t.value == role and ast.unparse(s2.targets[0].slice.elts[0]) == "j"
-                        ctx.check(ok, f"extrema [{arm}]: the {rname} update writes column {role} at the selected rows", s2)
-                        src_col = _col_of(s2.value, "mm.ext") if not (isinstance(s2.value, ast.Subscript) and
-                                                                      ast.unparse(s2.value.slice.elts[0]) == "j") else \
-                            (s2.value.slice.elts[1].value if isinstance(s2.value.slice.elts[1], ast.Constant) else None)
-                        ctx.check(src_col == want_b and ast.unparse(s2.value).startswith("mm.ext[j"),
-                                  f"extrema [{arm}]: the stored {rname} value is column {want_b} of the incoming data at the same rows", s2)
-                if isinstance(s2, ast.Call) and dotted(s2.func) == "_put_time":
-                    args = [ast.unparse(a) for a in s2.args]
-                    ok = args == ["curext", "mm", "j", str(role), str(want_b)]
-                    nstores += 1
-                    ctx.check(ok, f"extrema [{arm}]: the abscissa of the {rname} is moved with it (_put_time(curext, mm, j, {role}, {want_b}))", s2, args)
-        # --- first case
-        first = [s for s in body if isinstance(s, ast.If) and ast.unparse(s.test).replace(" ", "") == "curext.extisNone"]
-        if len(first) != 1:
-            ctx.error(f"extrema [{arm}]: first-case block", fn)
-        else:
-            txt = [utext(s) for s in first[0].body]
-            if arm == "one-column":
-                ok = "curext.ext=mm.ext@[[1,1]]" in txt and "curext.maxcase=maxcase" in txt and "curext.mincase=maxcase[:]" in txt
-                ctx.check(ok, "extrema [one-column]: first case fills both columns with the value and gives mincase its own copy of the labels", first[0], txt)
-            else:
-                ok = "curext.ext=mm.ext.copy()" in txt and "curext.maxcase=maxcase" in txt and "curext.mincase=mincase" in txt
-                ctx.check(ok, "extrema [two-column]: first case copies the incoming table; labels from maxcase / mincase", first[0], txt)
-            ok = isinstance(first[0].body[-1], ast.Return)
-            ctx.check(ok, f"extrema [{arm}]: nothing else runs on the first case", first[0], nontrivial=False)
-            # the first-case test precedes the updates
-            sels = [s for s in body if isinstance(s, ast.Assign) and ast.unparse(s.targets[0]) == "j"]
-            ok = all(body.index(first[0]) < body.index(s) for s in sels)
-            ctx.check(ok, f"extrema [{arm}]: the first-case test precedes the compare-and-replace", first[0], nontrivial=False)
-    ctx.check(nsel == 4 and nstores >= 20, f"extrema: rule bound to {nsel} selectors and {nstores} role stores", fn, nontrivial=False)
-    # label lists are copied, never aliased to the caller's
-    txt = utext(fn)
-    ok = "maxcase=maxcase[:]" in txt and "mincase=maxcase[:]" in txt and "mincase=mincase[:]" in txt
-    ctx.check(ok, "extrema: label lists are copied (`[:]`) before being stored", fn)
-    # _put_time moves mm.ext_x[j, col_rhs] into curext.ext_x[j, col_lhs]
-    pt = ctx.src.func(UTIL, "extrema._put_time")
-    ok = "curext.ext_x[j,col_lhs]=mm.ext_x[j,col_rhs]" in utext(pt)
-    ctx.check(ok, "_put_time: curext.ext_x[j, lhs] = mm.ext_x[j, rhs]", pt)
-    # _store_maxmin / frf_data_recovery
-    sm = ctx.src.func(RES, "DR_Results._store_maxmin")
-    want = {"res.mx": ("mm.ext", 0), "res.mx_x": ("mm.ext_x", 0), "res.mn": ("mm.ext", 1), "res.mn_x": ("mm.ext_x", 1)}
-    seen = 0
-    for st in walk_no_nested(sm):
-        if isinstance(st, ast.Assign) and isinstance(st.targets[0], ast.Subscript):
-            t = ast.unparse(st.targets[0].value)
-            if t in want:
-                seen += 1
-                src, col = want[t]
-                ok = _col_of(st.value, src) == col and ast.unparse(st.targets[0].slice).replace(" ", "") in ("(:,j)", ":,j")
-                ctx.check(ok, f"_store_maxmin: `{t}[:, j]` records column {col} of {src}", st)
-    ctx.check(seen == 4, "_store_maxmin: four per-case records", sm, nontrivial=False)
-    ok = "res.cases[j]=case" in utext(sm)
-    ctx.check(ok, "_store_maxmin: the case label goes to the same slot j", sm)
-    fr = ctx.src.func(RES, "DR_Results.frf_data_recovery")
-    txt = utext(fr)
-    ok = "mm=maxmin(abs(resp),SOL.f)" in txt and "mm.ext[:,1]=-mm.ext[:,0]" in txt and "mm.ext_x[:,1]=mm.ext_x[:,0]" in txt
-    ctx.check(ok, "frf_data_recovery: min column is minus the max of |resp| at the same abscissa", fr)
-
-
-def r2_mirror(ctx):
-    # nan_argmax / nan_argmin are mirror images
-    a = ctx.src.func(UTIL, "nan_argmax")
-    b = ctx.src.func(UTIL, "nan_argmin")
-    ra = [n for n in ast.walk(a) if isinstance(n, ast.Return)][0].value
-    rb = [n for n in ast.walk(b) if isinstance(n, ast.Return)][0].value
-    ta = utext(ra)
-    tb = utext(rb)
-    ok = ta == "(v2>v1)|np.isnan(v1)&~np.isnan(v2)" and tb == ta.replace(">", "<")
-    ctx.check(ok, "nan_argmax / nan_argmin: (v2 > v1) | (isnan(v1) & ~isnan(v2)) and its `<` mirror (a NaN is replaced by any number, never the reverse)",
-              a, {"max": ta, "min": tb})
-    na = ctx.src.func(UTIL, "nan_absmax")
-    txt = utext(na)
-    ok = "amx=v1.copy()" in txt and "pv=nan_argmax(abs(v1),abs(v2))" in txt and "amx[pv]=v2[pv]" in txt
-    ctx.check(ok, "nan_absmax: copies v1, replaces where |v2| > |v1| keeping the sign", na)
-    mm = ctx.src.func(UTIL, "maxmin")
-    txt = utext(mm)
-    ok = "jx=np.nanargmax(response,axis=1)" in txt and "jn=np.nanargmin(response,axis=1)" in txt \
-        and "mx=response[ind,jx]" in txt and "mn=response[ind,jn]" in txt \
-        and "ext=np.column_stack((mx,mn))" in txt and "ext_x=np.column_stack((x[jx],x[jn]))" in txt
-    ctx.check(ok, "maxmin: column 0 = row max with its abscissa, column 1 = row min with its abscissa", mm)
-    # the two selectors of each arm of extrema are each other's mirror
-    fn = ctx.src.func(UTIL, "extrema")
-    sels = [s for s in ast.walk(fn) if isinstance(s, ast.Assign) and ast.unparse(s.targets[0]) == "j"]
-    by = {}
-    for s in sels:
-        one = any(isinstance(p_, ast.If) and ast.unparse(p_.test).replace(" ", "") == "c==1" for p_ in _anc(s))
-        by.setdefault("one" if one else "two", []).append(ast.unparse(s.value).replace(" ", ""))
-    for arm, lst in by.items():
-        if len(lst) != 2:
-            ctx.error(f"extrema: two selectors in the {arm}-column arm", fn)
-            continue
-        mx, mn = lst
-        if arm == "two":
-            mirror = mx.replace("nan_argmax", "nan_argmin").replace("[:,0]", "[:,1]")
-        else:
-            mirror = mx.replace("nan_argmax", "nan_argmin").replace("curext.ext[:,0]", "curext.ext[:,1]")
-        ok = mirror == mn
-        ctx.check(ok, f"extrema [{arm}-column]: the min selector is the mirror image of the max selector", fn,
-                  None if ok else {"max": mx, "min": mn, "mirror of max": mirror})
-
-
-def _anc(n):
-    p_ = parent(n)
-    while p_ is not None:
-        yield p_
-        p_ = parent(p_)
-
-
-def r3_envelope(ctx):
-    fn = ctx.src.func(RES, "DR_Results._compute_srs")
-    env_stores = [s for s in ast.walk(fn) if isinstance(s, ast.Assign) and ast.unparse(s.targets[0]).replace(" ", "") == "res.srs.ext[q]"]
-    if not env_stores:
-        raise AnchorError("_compute_srs: no assignment to res.srs.ext[q]")
-    for st in env_stores:
-        v = ast.unparse(st.value).replace(" ", "")
-        names = {n.id for n in ast.walk(st.value) if isinstance(n, ast.Name)}
-        # the envelope over cases processed in ANY order must not depend on which slot j the case occupies
-        ok = "j" not in names
-        ctx.check(ok, "_compute_srs: the envelope value does not depend on the case slot index `j` (cases may be processed in any order)", st,
-                  None if ok else f"`{v}` reads slots by position: with out-of-order processing the unfilled slots are zeros and filled higher slots are dropped")
-        under_first = any(isinstance(a, ast.If) and ast.unparse(a.test) == "first" and any(st is y for x in a.body for y in ast.walk(x))
-                          for a in _anc(st))
-        if v == "srs_cur":
-            ctx.check(under_first, "_compute_srs: the envelope is set to the current spectrum only on the first case", st)
-        else:
-            ok = v in ("np.fmax(res.srs.ext[q],srs_cur)", "np.fmax(srs_cur,res.srs.ext[q])", "np.maximum(res.srs.ext[q],srs_cur)",
-                       "np.maximum(srs_cur,res.srs.ext[q])")
-            ctx.check(ok, "_compute_srs: otherwise the envelope is max(old envelope, current spectrum) - a running maximum", st, v)
-    pre = [s for s in ast.walk(fn) if isinstance(s, ast.Assign) and ast.unparse(s.targets[0]).replace(" ", "") == "res.srs.srs[q][j]"]
-    ok = len(pre) == 1 and ast.unparse(pre[0].value) == "srs_cur"
-    ctx.check(ok, "_compute_srs: the per-case spectrum goes to slot j", pre[0] if pre else fn)
-    for q in ("time_data_recovery", "frf_data_recovery"):
-        f2 = ctx.src.func(RES, f"DR_Results.{q}")
-        loop = [n for n in f2.body if isinstance(n, ast.For)][0]
-        fdef = [s for s in loop.body if isinstance(s, ast.Assign) and ast.unparse(s.targets[0]) == "first"]
-        ext = [s for s in loop.body if isinstance(s, ast.Expr) and isinstance(s.value, ast.Call) and dotted(s.value.func) == "extrema"]
-        ok = len(fdef) == 1 and ast.unparse(fdef[0].value).replace(" ", "") == "res.extisNone" and len(ext) == 1 \
-            and loop.body.index(fdef[0]) < loop.body.index(ext[0])
-        ctx.check(ok, f"{q}: `first = res.ext is None` is evaluated before extrema() fills res.ext", fdef[0] if fdef else f2)
-        calls = [n for n in ast.walk(loop) if isinstance(n, ast.Call) and dotted(n.func) == "self._compute_srs"]
-        ok = len(calls) == 1 and "first" in [ast.unparse(a_) for a_ in calls[0].args]
-        ctx.check(ok, f"{q}: that flag is the one passed to _compute_srs", calls[0] if calls else f2)
-
-
-# ---------------------------------------------------------------------------
-def _cla_attrs():
-    t = {
-        "sol.a": Arr("N", None), "sol.v": Arr("N", None), "sol.d": Arr("N", None),
-        "solout.a": Arr("N", None), "solout.v": Arr("N", None), "solout.d": Arr("N", None),
-        "solout.d_static": Arr("N", None), "solout.d_dynamic": Arr("N", None),
-        'save["genforce"]': Arr("NR", None),    # genforce = non-rb part of m a + b v + k d  (comment above _pre_calcs)
-        'save["avterm"]': Arr("EL", None),      # avterm = non-rb, non-rf part
-        'save["elastic"]': Idx("N", "EL"),      # elastic: positions in the full modal set
-        'save["elastic_norb"]': Idx("NR", "EL"),  # positions relative to the non-rb rows
-        'save["rf_norb"]': Idx("NR", "RF"),
-        'save["lup_elastic"]': Arr("EL", "EL"), 'save["lup_rf"]': Arr("RF", "RF"),
-    }
-    return t
-
-
-def r6_exits_and_typing(ctx):
-    fn = ctx.src.func(EVT, "apply_uf")
-    rets = [n for n in walk_no_nested(fn) if isinstance(n, ast.Return)]
-    n = 0
-    for r in rets:
-        if ast.unparse(r.value) != "solout":
-            continue
-        n += 1
-        blk = None
-        p_ = parent(r)
-        for fld in ("body", "orelse"):
-            b = getattr(p_, fld, None)
-            if isinstance(b, list) and r in b:
-                blk = b
-        prev = blk[blk.index(r) - 1] if blk and blk.index(r) > 0 else None
-        ok = prev is not None and utext(prev) in ("solout.d=solout.d_static+solout.d_dynamic",
-                                                                       "solout.d=solout.d_dynamic+solout.d_static")
-        ctx.check(ok, "apply_uf: `return solout` is immediately preceded by d = d_static + d_dynamic", r)
-    ctx.check(n == 3, "apply_uf: three exits", fn, nontrivial=False)
-    # typing of _pre_calcs and apply_uf
-    bad = []
-    params = {"m": Arr("N", "N"), "b": Arr("N", "N"), "k": Arr("N", "N"), "rfmodes": Idx("N", "RF")}
-    slices = {("nrb", None): Idx("N", "NR"), (None, "nrb"): Idx("N", "RB")}
-    for q in ("_pre_calcs", "apply_uf"):
-        f2 = ctx.src.func(EVT, q)
-        rep = {}
-
-        def report(kind, node, detail, rep=rep):
-            rep.setdefault(id(node), []).append((kind, node, detail))
-
-        T = Typer(_cla_attrs(), dict(params), set(), report, q)
-        T.slices = slices
-        if q == "_pre_calcs":
-            # the local partition vectors; their meaning is fixed by the two arms that define them
-            T.env.update({"elastic": Idx("N", "EL"), "elastic_norb": Idx("NR", "EL"), "rf_norb": Idx("NR", "RF"),
-                          "genforce": Arr("NR", None)})
-            body = [s for s in f2.body if not (isinstance(s, ast.If) and "rfmodes is not None" in ast.unparse(s.test) and
-                                                any(isinstance(x, ast.Assign) and ast.unparse(x.targets[0]) == "elastic" for x in s.body))
-                    and not (isinstance(s, ast.Assign) and ast.unparse(s.targets[0]) == "genforce")]
-        else:
-            body = f2.body
-        T.run(body)
-        seen = set()
-        for lst in rep.values():
-            for kind, node, detail in lst:
-                key = f"C16-R6|{q}|{kind}|{ast.unparse(node)[:80]}"
-                if key in seen:
-                    continue
-                seen.add(key)
-                ctx.fail(f"{q}: {kind}", node, detail, key=key)
-        for node in T.checked:
-            if id(node) not in rep:
-                ctx.ok(f"{q}: `{ast.unparse(node)[:70]}` full / non-rb / elastic index spaces agree", node)
-        if q == "_pre_calcs":
-            want = _cla_attrs()
-            for d, v, st in T.attr_stores:
-                if d in want and v is not None:
-                    w = want[d]
-                    ok = (isinstance(v, Arr) and isinstance(w, Arr) and v.s[0] == w.s[0]) or \
-                         (isinstance(v, Idx) and isinstance(w, Idx) and (v.dom, v.cod) == (w.dom, w.cod))
-                    ctx.check(ok, f"_pre_calcs: `{d}` is stored with the space apply_uf assumes", st, {"stored": repr(v), "assumed": repr(w)})
-    # the definitions of elastic / elastic_norb / rf_norb themselves
-    f2 = ctx.src.func(EVT, "_pre_calcs")
-    txt = utext(f2)
-    ok = "elastic=flippv(rfmodes,n)[nrb:]" in txt and "elastic_norb=index2slice(elastic-nrb)" in txt and "rf_norb=rfmodes-nrb" in txt \
-        and "elastic=slice(nrb,None)" in txt and "elastic_norb=slice(n-nrb)" in txt
-    ctx.check(ok, "_pre_calcs: elastic = non-rb non-rf positions (full set); elastic_norb = elastic - nrb; rf_norb = rfmodes - nrb", f2)
-    ok = "genforce=np.empty((n-nrb,sol.a.shape[1]),sol.a.dtype)" in txt
-    ctx.check(ok, "_pre_calcs: genforce has one row per non-rb equation", f2)
-
-
-def r4_cache_purity(ctx):
-    pc = ctx.src.func(EVT, "_pre_calcs")
-    args = [a.arg for a in pc.args.args]
-    ok = not ({"uf_reds", "ruf", "euf", "duf", "suf"} & set(args))
-    ctx.check(ok, "_pre_calcs does not receive the uncertainty factors (nothing it caches can depend on them)", pc, args)
-    names = {n.id for n in ast.walk(pc) if isinstance(n, ast.Name)}
-    ok = not ({"uf_reds", "ruf", "euf", "duf", "suf"} & names)
-    ctx.check(ok, "_pre_calcs does not mention any uncertainty factor", pc)
-    fn = ctx.src.func(EVT, "apply_uf")
-    # loads from save[...] are never the target of an in-place operation
-    loaded = {}
-    for st in walk_no_nested(fn):
-        if isinstance(st, ast.Assign) and isinstance(st.targets[0], ast.Name):
-            v = st.value
-            if isinstance(v, ast.NamedExpr):
-                v = v.value
-            if isinstance(v, ast.Subscript) and ast.unparse(v.value) == "save":
-                loaded[st.targets[0].id] = st
-    for n in walk_no_nested(fn):
-        if isinstance(n, ast.NamedExpr) and isinstance(n.value, ast.Subscript) and ast.unparse(n.value.value) == "save":
-            loaded[n.target.id] = n
-    inplace = []
-    for st in walk_no_nested(fn):
-        tgt = None
-        if isinstance(st, ast.AugAssign):
-            tgt = st.target
-        elif isinstance(st, ast.Assign) and isinstance(st.targets[0], ast.Subscript):
-            tgt = st.targets[0]
-        if tgt is None:
-            continue
-        base = tgt
-        while isinstance(base, ast.Subscript):
-            base = base.value
-        inplace.append((st, ast.unparse(base)))
-    for st, base in inplace:
-        ok = base not in loaded and not base.startswith("save") and not base.startswith("sol.")
-        ctx.check(ok, f"apply_uf: in-place write `{ast.unparse(st)[:60]}` touches neither the cache nor the caller's solution", st)
-    # every array written in place was created fresh inside apply_uf
-    fresh = {}
-    for st in walk_no_nested(fn):
-        if isinstance(st, ast.Assign) and isinstance(st.targets[0], ast.Attribute) and ast.unparse(st.targets[0]).startswith("solout."):
-            v = ast.unparse(st.value).replace(" ", "")
-            fresh[ast.unparse(st.targets[0])] = v.endswith(".copy()") or v.startswith("np.empty_like(") or "+" in v or "*" in v
-    for st, base in inplace:
-        if base.startswith("solout."):
-            ok = fresh.get(base) is True
-            ctx.check(ok, f"apply_uf: `{base}` written in place is a fresh array (copy / empty_like), not the caller's", st, fresh.get(base))
-    # values multiplied by the factors are new arrays
-    for nm in ("avterm", "gf"):
-        d = [s for s in walk_no_nested(fn) if isinstance(s, ast.Assign) and ast.unparse(s.targets[0]) == nm]
-        ok = bool(d) and isinstance(d[0].value, ast.BinOp) and isinstance(d[0].value.op, ast.Mult) and "save[" in ast.unparse(d[0].value)
-        ctx.check(ok, f"apply_uf: `{nm}` is a new array (factor * cached value), the cache entry is left untouched", d[0] if d else fn)
-    # _pre_calcs runs iff the cache is empty
-    calls = [n for n in walk_no_nested(fn) if isinstance(n, ast.Call) and dotted(n.func) == "_pre_calcs"]
-    ok = len(calls) == 1 and isinstance(parent(parent(calls[0])), ast.If) and \
-        ast.unparse(parent(parent(calls[0])).test).replace(" ", "").replace("'", '"') == '"genforce"notinsave'
-    ctx.check(ok, "apply_uf: _pre_calcs runs exactly when the cache has no 'genforce' entry", calls[0] if calls else fn)
-    args = [ast.unparse(a) for a in calls[0].args] if calls else []
-    ctx.check(args == ["sol", "m", "b", "k", "nrb", "rfmodes", "save"], "apply_uf: _pre_calcs receives the unscaled sol", fn, args)
-    # avterm is a snapshot taken before the stiffness term is added
-    body = pc.body
-    av = [s for s in body if isinstance(s, ast.Assign) and ast.unparse(s.targets[0]) == "avterm"]
-    kadd = [s for s in ast.walk(pc) if isinstance(s, ast.AugAssign) and "sol.d" in ast.unparse(s.value)]
-    guard = [s for s in body if isinstance(s, ast.If) and "avterm.base" in ast.unparse(s.test)
-             and any("avterm=avterm.copy()" in utext(x) for x in s.body)]
-    ok = bool(av) and bool(kadd) and all(av[0].lineno < k_.lineno for k_ in kadd) and \
-        (bool(guard) and av[0].lineno < guard[0].lineno < min(k_.lineno for k_ in kadd) or ".copy()" in ast.unparse(av[0].value))
-    ctx.check(ok, "_pre_calcs: avterm is copied (not a view of genforce) before the stiffness term is accumulated into genforce", av[0] if av else pc)
-
-
-def _stores_by(ev, base):
-    return [(idx, val, st) for b, idx, val, st in ev.stores if b == base]
-
-
-def r5_documented_factors(ctx):
-    fn = ctx.src.func(EVT, "apply_uf")
-    ruf, euf, duf, suf = (F.sym(x) for x in ("ruf", "euf", "duf", "suf"))
-    A, V, PG, GF, AV, K = (F.sym(x) for x in ("A", "V", "PG", "GF", "AV", "K"))
-    for kdim in (1, 2):
-        def cond(test, ev, kdim=kdim):
-            t = utext(test).replace("'", '"')
-            if t == "nrb>0":
-                return True
-            if t == "nrb==k.shape[0]":
-                return False
-            if t == "rfmodesisnotNone":
-                return True
-            if t == "saveisNone":
-                return False
-            if t == '"genforce"notinsave':
-                return False
-            if t == "k.ndim==1":
-                return kdim == 1
-            if "isnotNone" in t and "lup" in t:
-                return True
-            return None
-
-        def sub(node, ev):
-            t = utext(node).replace("'", '"')
-            if t == 'save["genforce"]':
-                return GF
-            if t == 'save["avterm"]':
-                return AV
-            if t.startswith("save["):
-                return F.sym("idx")
-            return NotImplemented
-
-        def call(node, ev):
-            d = dotted(node.func)
-            if d == "la.lu_solve":
-                b_ = ev.ev(node.args[1])
-                if is_unknown(b_):
-                    return b_
-                return need(b_) / K
-            if d == "SimpleNamespace":
-                return F.sym("ns")
-            if d in ("np.empty_like",):
-                return F.sym("uninit")
-            return NotImplemented
-
-        env = {"solout.a": A, "solout.v": V, "sol.pg": PG, "k": K, "uf_reds": (ruf, euf, duf, suf)}
-        ev = Evaluator(env=env, cond=cond, src=ctx.src, subscript=sub, call=call)
-        body = [s for s in fn.body if not (isinstance(s, ast.If) and "rfmodes is not None" in ast.unparse(s.test) and
-                                           "np.atleast_1d" in ast.unparse(s))]
-        # statements under try: solout.pg = sol.pg * suf
-        for s in body:
-            if isinstance(s, ast.Try):
-                ev.run(s.body)
-            else:
-                ev.stmt(s)
-        tag = f"apply_uf (k {'diagonal' if kdim == 1 else 'full'})"
-        want = {
-            ("solout.a", ":nrb"): A * ruf * suf, ("solout.v", ":nrb"): V * ruf * suf,
-            ("solout.a", "nrb:"): A * euf * duf, ("solout.v", "nrb:"): V * euf * duf,
-            ("solout.a", "rfmodes"): F.const(0), ("solout.v", "rfmodes"): F.const(0), ("solout.d_dynamic", "rfmodes"): F.const(0),
-            ("solout.d_static", ":nrb"): F.const(0), ("solout.d_dynamic", ":nrb"): F.const(0),
-        }
-        if kdim == 1:
-            want[("solout.d_static", "nrb:")] = euf * suf * GF / K
-            want[("solout.d_dynamic", "elastic")] = -euf * duf * AV / K
-        else:
-            want[("solout.d_static", "elastic")] = euf * suf * GF / K
-            want[("solout.d_dynamic", "elastic")] = -euf * duf * AV / K
-            want[("solout.d_static", "rfmodes")] = euf * suf * GF / K
-        got = {}
-        for b_, idx, val, st in ev.stores:
-            got[(b_, idx)] = (val, st)
-        for key, w in want.items():
-            if key not in got:
-                ctx.fail(f"{tag}: `{key[0]}[{key[1]}]` is assigned", fn, sorted(f"{a}[{b}]" for a, b in got))
-                continue
-            val, st = got[key]
-            if is_unknown(val):
-                ctx.error(f"{tag}: {key[0]}[{key[1]}]", st, repr(val))
-                continue
-            ok = val.equals(w)
-            ctx.check(ok, f"{tag}: {key[0]}[{key[1]}] is scaled as documented ({w})", st, None if ok else {"got": repr(val), "documented": repr(w)})
-        extra = [k_ for k_ in got if k_ not in want]
-        ctx.check(not extra, f"{tag}: no other part of the solution is scaled", fn, [f"{a}[{b}]" for a, b in extra], nontrivial=False)
-        pg = ev.env.get("solout.pg")
-        ok = pg is not None and not is_unknown(pg) and pg.equals(PG * suf)
-        ctx.check(ok, f"{tag}: pg is scaled by suf", fn, None if ok else repr(pg))
-    # _pre_calcs: genforce - avterm = K d on the elastic rows, for 1-D and 2-D m, b, k
-    pc = ctx.src.func(EVT, "_pre_calcs")
-    M, B, Kk, a, v, d = (F.sym(x) for x in ("M", "B", "Kk", "a", "v", "d"))
-    for md in ("none", 1, 2):
-        for bd in (1, 2):
-            for kd in (1, 2):
-                def cond(test, ev, md=md, bd=bd, kd=kd):
-                    t = utext(test)
-                    return {"misNone": md == "none", "m.ndim==1": md == 1, "b.ndim==1": bd == 1, "k.ndim==1": kd == 1,
-                            "rfmodesisnotNone": False, "isinstance(elastic,slice)": True, "avterm.baseisnotNone": False}.get(t)
-
-                env = {"sol.a": a, "sol.v": v, "sol.d": d, "m": M, "b": B, "k": Kk, "genforce": F.const(0)}
-                ev = Evaluator(env=env, cond=cond, src=ctx.src, store_accept=lambda b_, i, st: b_ == "genforce")
-                # avterm snapshot: record value of genforce at the time avterm is assigned
-                snap = {}
-                for s in pc.body:
-                    if isinstance(s, ast.Assign) and ast.unparse(s.targets[0]) == "genforce":
-                        continue
-                    ev.stmt(s)
-                    if isinstance(s, ast.Assign) and ast.unparse(s.targets[0]) == "avterm":
-                        snap["av"] = ev.env.get("avterm")
-                gf, av = ev.env.get("genforce"), snap.get("av")
-                mm = F.const(1) if md == "none" else M
-                if gf is None or av is None or is_unknown(gf) or is_unknown(av):
-                    ctx.error(f"_pre_calcs (m {md}, b {bd}-D, k {kd}-D)", pc, f"{gf} {av}")
-                    continue
-                ok = gf.equals(mm * a + B * v + Kk * d) and av.equals(mm * a + B * v)
-                ctx.check(ok, f"_pre_calcs (m {md}, b {bd}-D, k {kd}-D): genforce = m a + b v + k d and avterm = m a + b v "
-                              "(so d_static + d_dynamic = K^-1 (K d) = d for unit factors)", pc,
-                          None if ok else {"genforce": repr(gf), "avterm": repr(av)})
-    # frf_apply_uf: documented factors
-    ff = ctx.src.func(EVT, "DR_Event.frf_apply_uf")
-    txt = utext(ff)
-    ok = all(f"SOL.{x}[:nrb]*=ruf*suf" in txt and f"SOL.{x}[nrb:]*=euf*duf" in txt for x in "avd") and "SOL.pg*=suf" in txt \
-        and "ruf,euf,duf,suf=item" in txt and "solout[item]=copy.deepcopy(sol)" in txt
-    ctx.check(ok, "frf_apply_uf: a, v, d rb part *= ruf*suf, elastic part *= euf*duf, pg *= suf, on a deep copy", ff)
-    au = ctx.src.func(EVT, "apply_uf")
-    ok = "ruf,euf,duf,suf=uf_reds" in utext(au)
-    ctx.check(ok, "apply_uf: factor tuple order is (rigid, elastic, dynamic, static)", au)
-
+from .c16_ext import r1_roles, r2_mirror, r3_envelope
+from .c16_uf import r4_cache_purity, r5_documented_factors, r6_exits_and_typing
 
 RULES = [
-    ("C16-R1", r1_roles, 40),
-    ("C16-R2", r2_mirror, 5),
-    ("C16-R3", r3_envelope, 6),
-    ("C16-R4", r4_cache_purity, 20),
-    ("C16-R5", r5_documented_factors, 40),
-    ("C16-R6", r6_exits_and_typing, 25),
+    ("C16-R1", r1_roles, 60),
+    ("C16-R2", r2_mirror, 9),
+    ("C16-R3", r3_envelope, 8),
+    ("C16-R4", r4_cache_purity, 28),
+    ("C16-R5", r5_documented_factors, 50),
+    ("C16-R6", r6_exits_and_typing, 100),
 ]
 LEVEL = "other"
-EXPLANATION = ("Static: max-side and min-side bookkeeping of extrema/_store_maxmin/maxmin are mirror images and stay in their columns, and the "
-               "row selector of each role is computed from that role's data only; the SRS envelope is a running maximum; apply_uf scales each "
-               "part by the documented factor (exact symbolic check for diagonal and full stiffness), its cache holds factor-independent values "
-               "that are never mutated, d = d_static + d_dynamic on every exit, and full / non-rb / elastic index spaces are used consistently.")
+EXPLANATION = ("Static, on values: every path of cla.extrema (both arms, first and later cases, with and without abscissae and case numbers) keeps "
+               "max-side and min-side bookkeeping in their columns, selects the rows of a role from that role's data only, moves value, label and "
+               "abscissa together, and stores fresh copies on the first case (no aliasing of the contributor's tables or of the two label lists); "
+               "nan_argmax/min, nan_absmax and maxmin compute what is documented and are mirror images; the SRS envelope is first-or-running-maximum "
+               "and independent of the slot index; apply_uf / _pre_calcs / frf_apply_uf write only into storage they allocated (views vs copies "
+               "modelled, overwrite_*/out= keywords included), the cache is factor-independent and filled exactly when empty, every part is scaled by "
+               "the documented factor (exact symbolic check, diagonal and full matrices, with and without rf modes), d = d_static + d_dynamic on "
+               "every exit, and full / non-rb / elastic / rf index spaces are used consistently end to end (cache entries typed from what "
+               "_pre_calcs stores).")
 MANIFEST = {
-    "text": "Partial claim decided statically: (R1) role discipline and role information-flow in cla.extrema (both arms), _store_maxmin, frf_data_recovery; "
-            "(R2) nan_argmax/min, maxmin and the two selectors are mirror images; (R3) the SRS envelope is first-or-fmax and `first` is read before extrema(); "
-            "(R4) apply_uf's cache is factor-independent, never mutated, written only when empty, avterm is a snapshot; (R5) every part of the solution is "
-            "scaled exactly as documented and genforce - avterm = K d for every m/b/k dimensionality; (R6) every exit sets d = d_static + d_dynamic and "
-            "_pre_calcs/apply_uf use the full, non-rb and elastic index spaces consistently. Not decided: NaN semantics of numpy comparisons, report "
-            "formatting, form_extreme/merge label handling.",
-    "note": "Trusted: CPython ast; verifier/e2_formula.py (matrix products abstracted to scalar products), verifier/e3_spaces.py with the space table in verifier/c16.py.",
-    "technique": "static role/information-flow rules on the AST + exact symbolic factor check + index-space type inference + effect analysis of the cache",
+    "text": "Partial claim decided statically on values and effects: (R1) role discipline and role information-flow in cla.extrema on every path, "
+            "per-case records, first-case values are fresh copies (ext, ext_x, maxcase, mincase alike), _store_maxmin, frf_data_recovery; "
+            "(R2) nan_argmax/min, nan_absmax, maxmin (NaN-aware position, value read at the reported position) and the two selectors are mirror "
+            "images; (R3) the SRS envelope is first-or-fmax, independent of the slot index, and `first` is read before extrema(); (R4) _pre_calcs / "
+            "apply_uf / frf_apply_uf mutate nothing they did not allocate (in-place stores, augmented assignments, overwrite_* / out= on library "
+            "calls; basic indexing = view, advanced = copy), the cache is factor-independent, written only when empty, avterm is a snapshot; "
+            "(R5) every part of the solution is scaled exactly as documented and genforce - avterm = K d for every m/b/k dimensionality with and "
+            "without rf modes; (R6) every exit returns d = d_static + d_dynamic and _pre_calcs/apply_uf use the full, non-rb, elastic and rf index "
+            "spaces consistently. Not decided: NaN semantics of numpy comparisons, report formatting, form_extreme/merge label handling.",
+    "note": "Trusted: CPython ast; verifier/c16_interp.py (path enumeration, heap/alias model, table of numpy view/copy semantics), "
+            "verifier/e2_formula.py (matrix products abstracted to scalar products), the space rules in verifier/c16_uf.py (Spaces).",
+    "technique": "abstract interpretation on symbolic values with path enumeration and an alias/effect model + exact symbolic factor check + "
+                 "index-space type inference",
 }
